@@ -12,6 +12,7 @@
   Proofs: `PolyVerif/Lemmas/ObjText.lean`.
 -/
 import PolyVerif.Lemmas.ObjTextCompose
+import PolyVerif.Lemmas.ObjLex
 
 namespace PolyVerif
 namespace C05
@@ -103,6 +104,28 @@ example : (mixedWitness.flatMap fun p => optList p.2.pos).length < 2 ^ 63 ∧
     (mixedWitness.flatMap fun p => optList p.2.uv).length < 2 ^ 63 ∧
     (mixedWitness.flatMap fun p => optList p.2.nrm).length < 2 ^ 63 := by
   refine ⟨?_, ?_, ?_⟩ <;> decide
+
+/-- **Lexing a printed face line.**  `strings.Fields` applied to the `f` line the writer prints gives back the
+    keyword and exactly the three corner tokens — for all corners (the tokens are blank-free and non-empty). -/
+theorem fields_printFace (a b c : Corner) :
+    fields (printFace a b c) = ["f", showCorner a, showCorner b, showCorner c] :=
+  fields_printFace_aux a b c
+
+/-- **The whole text path of a face line**: print, split into fields, parse the three tokens — the three corners
+    come back (indices in the int64 range). -/
+theorem face_line_roundtrip (a b c : Corner) (ha : a.v < 2 ^ 63 ∧ (∀ t, a.vt = some t → t < 2 ^ 63) ∧ (∀ n, a.vn = some n → n < 2 ^ 63))
+    (hb : b.v < 2 ^ 63 ∧ (∀ t, b.vt = some t → t < 2 ^ 63) ∧ (∀ n, b.vn = some n → n < 2 ^ 63))
+    (hc : c.v < 2 ^ 63 ∧ (∀ t, c.vt = some t → t < 2 ^ 63) ∧ (∀ n, c.vn = some n → n < 2 ^ 63)) :
+    ((fields (printFace a b c)).drop 1).map parseCorner = [.ok a, .ok b, .ok c] := by
+  rw [fields_printFace]
+  simp [parseCorner_showCorner a ha.1 ha.2.1 ha.2.2, parseCorner_showCorner b hb.1 hb.2.1 hb.2.2,
+    parseCorner_showCorner c hc.1 hc.2.1 hc.2.2]
+
+example : ((fields (printFace ⟨1, some 2, none⟩ ⟨3, some 4, none⟩ ⟨5, some 6, none⟩)).drop 1).map parseCorner =
+    [.ok ⟨1, some 2, none⟩, .ok ⟨3, some 4, none⟩, .ok ⟨5, some 6, none⟩] :=
+  face_line_roundtrip _ _ _ ⟨by decide, by intro t h; cases h; decide, by intro n h; cases h⟩
+    ⟨by decide, by intro t h; cases h; decide, by intro n h; cases h⟩
+    ⟨by decide, by intro t h; cases h; decide, by intro n h; cases h⟩
 
 end C05
 end PolyVerif
